@@ -67,7 +67,12 @@ func processHints(query sql.ISelect, hints *storage.SelectHints) sql.ISelect {
 		)
 	}
 	if rangeVectors[hints.Func] && hints.Step > hints.Range {
-		msInStep := sql.NewRawObject(fmt.Sprintf("timestamp_ms %% %d", hints.Step))
+		// The engine evaluates at hints.Start + hints.Range + k*hints.Step (query start, minus
+		// the selector's offset): only samples inside [T - Range, T] of such a T are needed.
+		// The residue is taken relative to that grid (shifted one step back to stay positive),
+		// not relative to the epoch: start and offset need not be multiples of the step.
+		msInStep := sql.NewRawObject(fmt.Sprintf("(timestamp_ms - %d) %% %d",
+			hints.Start+hints.Range-hints.Step, hints.Step))
 		query.AndWhere(sql.Or(
 			sql.Eq(msInStep, sql.NewIntVal(0)),
 			sql.Ge(msInStep, sql.NewIntVal(hints.Step-hints.Range)),
